@@ -345,15 +345,20 @@ def triage(prop, failed_results, harnesses, tdirs):
         h = harnesses[r["name"]]
         d = free.get()
         try:
+            # trace generation needs several times the memory of the plain run
             rc, out, to = sh(kani_cmd(h, prop, d, playback=True), timeout=float(h["t"]) * 3,
-                             mem_gb=float(h["mem"]))
+                             mem_gb=max(45.0, 3 * float(h["mem"])))
         finally:
             clean_harness_artifacts(d)
             free.put(d)
+        logd = VERIF / "logs" / prop
+        logd.mkdir(parents=True, exist_ok=True)
+        (logd / (h["name"] + ".playback.log")).write_text(out)
         return [t for t in parse_playback_tests(out) if t["kind"] != "cover" and t["test"]
                 and not BENIGN.match(t["check"].strip('"')) and "unwinding assertion" not in t["check"]]
 
-    with concurrent.futures.ThreadPoolExecutor(len(tdirs)) as ex:
+    heavy = any(float(harnesses[r["name"]]["mem"]) >= 10 for r in failed_results)
+    with concurrent.futures.ThreadPoolExecutor(1 if heavy else min(4, len(tdirs))) as ex:
         all_tests = list(ex.map(get_tests, failed_results))
     flat = [t for ts in all_tests for t in ts]
     dev, rel = {}, {}
